@@ -324,7 +324,9 @@ def guards(rep, meths):
                             ok = False
                             why = f"{c}() and the position of {c} in {name}() disagree"
                 except (NeedConfig, Unsupported, PathEnds) as e:
-                    ok, why = False, f"could not interpret the pair: {e}"
+                    # not understood is not a verdict: exit 2, never a VIOLATION
+                    raise AnalysisError(f"projection pair {name}/{sorted(comps)}: could not "
+                                        f"be interpreted: {e}")
             rep.check(ok, "guard/projection-pair", pkey, why, node=node,
                       detail={"class": "A (reverse)", "tensor": name, "components": comps})
             continue
@@ -356,7 +358,8 @@ def guards(rep, meths):
                     why = (f"{comp}() returns {p!r} when '{tensor}' is cached, but "
                            f"{tensor}() places {comp} at {sorted(names) or 'no position'}")
             except (NeedConfig, Unsupported, PathEnds) as e:
-                why = f"could not interpret the pair: {e}"
+                raise AnalysisError(f"projection pair {tensor}/{comp}: could not be "
+                                    f"interpreted: {e}")
             rep.check(ok, "guard/projection-pair", f"{CORE}::pair({tensor},{comp})",
                       "assemble-then-project is not the identity: " + why, node=node,
                       detail={"class": "A", "tensor": tensor, "component": comp})
